@@ -1080,6 +1080,16 @@ func (e *c34Env) analyse(fam, format string, s *PkgSpec, data []byte, res *c34Re
 		if res.TarBy == nil {
 			res.TarBy = map[string]int{}
 		}
+		// deb(5): the members of a deb are tar archives in v7, ustar or GNU format (long names as GNU 'L'/'K' members);
+		// dpkg does not read POSIX.1-2001 extended headers and aborts on typeflag 'x'
+		if format == "deb" {
+			for _, en := range es {
+				if len(en.PAX) > 0 || en.Format == "PAX" {
+					res.f04("deb:pax-extended-header-in-"+which+"-tar", fmt.Sprintf("member %q of the %s archive is written with a PAX extended header (records %v): dpkg accepts only v7, ustar and GNU tar members (deb(5)) and rejects the package", en.Name, which, en.PAX))
+					break
+				}
+			}
+		}
 		if len(stream) == 0 || len(stream) > e.segCap/4 {
 			res.TarSkipped++
 			res.TarBy[format+":"+which+":skipped-size"]++
